@@ -4,6 +4,8 @@ CONSTANTS
   Defect_NoSessionStarted = FALSE
   Defect_CloseNoTerminal = FALSE
   Defect_SyncSpin = FALSE
+  Defect_ResolveNoTerminal = FALSE
+  StoreFaults = {FALSE}
   Defect_DropLateEvents = FALSE
   SelectAllFifo = FALSE
   Sessions = {"s1", "s2", "s3"}
